@@ -37,6 +37,9 @@ checks = {
  "C06": dict(cat="exploration", engine="seq", tech=SEQ + " (all ordered pairs of key tuples over a 10-value alphabet incl. empty string and separators)", ref="DESIGN.md §5 C06",
    text="real byKeySet orchestrator with real pipelines and hybrid buffers on a scratch root and a capturing consumer; all tuples over {'', a, b, ab, ',', 'a,', '.', '/', NUL, e-acute} for 1-2 key fields (quick) / 3 (thorough); for every ordered pair of distinct tuples one record each, both arrival orders, one and two connections, 4 tag templates; then Shutdown and a second orchestrator through StartOrchestrator on the same root; oracles: different pipelines/chunks/queue directories, tag = reference expansion of the template on the record's own tuple, queued chunks reattached at startup to the pipeline of the tuple that produced them",
    note="buffer channel size and message limit scaled down for allocation cost only; tags need not be injective (compared with the reference expander)"),
+ "C07": dict(cat="exploration", engine="seq", tech=SEQ + " (boundary-menu product, all one-edit neighbours, all short prefix strings; sentinels around every bad record)", ref="DESIGN.md §5 C07",
+   text="record level on the real agent core built from the sample configuration (parsing receiver with extraction transforms, byKeySet orchestrator, real LogProcessingWorker handlers run inline via an overlay accessor, both serializers and chunk makers, capture + independent decoding), scaled and shipped limits: (A) full product of per-token boundary menus, (B) all one-edit neighbours (256 substitutions, deletion, 256 insertions per position) of five seed records, (C) all strings over {<,1,>,space,-,a} up to length 7/8 + valid-looking tail; each bad record between two sentinels; oracle: no panic / fatal / hang, sentinels delivered intact and in order, every line counted once, delivered = passed per output",
+   note="record level only: the stream level (framer around bad records) is C08's enumeration, the listener level (disconnect / re-accept) is exercised by the repository's own tests, not here; one agent core serves up to 128 cases, any finding is re-run alone on a fresh core"),
  "C08": dict(cat="exploration", engine="seq", tech=SEQ + " (all 0-,1-,2-cut fragmentations x all flush placements against a line-based reference framer)", ref="DESIGN.md §5 C08, Appendix A.1",
    text="real tcplistener.multiLineReader with a scripted read function: every sequence of 2-3 (thorough 2-4) records over six kinds (single line, 1-2 continuation lines, garbage shaped like a head prefix, empty lines) x ALL 0/1/2-cut splits (3-cut for the shortest streams) x ALL 2^(#fragments) flush placements, at scaled sizes (limit 64 / buffer 192) and the shipped sizes, plus over-limit streams; oracle: without flushes identical records for every fragmentation; single-line streams identical under every flush placement; every head exactly once and in order; continuation attached unless a flush fell between",
    note="runConnection's deadline logic itself is not driven (flushes are placed between reads, which is all it can do); over-limit records under the weaker byte-conservation oracle as documented"),
